@@ -65,7 +65,7 @@ def gen_case(rng):
             v = ta.gen_val(rng, 1)
         new.append(v)
     flags = tuple(c for c in ("fix", "update") if rng.random() < 0.6)
-    return {"fields": fields, "pos": pos, "kws": kws, "new": new, "flags": flags}
+    return {"fields": fields, "pos": pos, "kws": kws, "new": new, "flags": flags, "cls": rng.choice(["dataclass", "dataclass", "namedtuple", "attrs"])}
 
 
 def _same(a, b):
@@ -82,14 +82,29 @@ def render_old(c):
 
 
 def program(c):
-    lines = ["from dataclasses import dataclass, field", "from inline_snapshot import snapshot, Is", "", "", "@dataclass", "class A:"]
-    for i, d in enumerate(c["fields"]):
-        if d is None:
-            lines.append(f"    f{i}: object")
-        elif isinstance(d, list):
-            lines.append(f"    f{i}: object = field(default_factory=lambda: {d!r})")
-        else:
-            lines.append(f"    f{i}: object = {d!r}")
+    cls = c.get("cls", "dataclass")
+    if cls == "namedtuple":
+        names = " ".join(f"f{i}" for i in range(len(c["fields"])))
+        defaults = [d for d in c["fields"] if d is not None]
+        lines = ["from collections import namedtuple", "from inline_snapshot import snapshot, Is", "", "", f"A = namedtuple('A', '{names}', defaults={defaults!r})"]
+    elif cls == "attrs":
+        lines = ["import attrs", "from inline_snapshot import snapshot, Is", "", "", "@attrs.define", "class A:"]
+        for i, d in enumerate(c["fields"]):
+            if d is None:
+                lines.append(f"    f{i}: object")
+            elif isinstance(d, list):
+                lines.append(f"    f{i}: object = attrs.field(factory=lambda: {d!r})")
+            else:
+                lines.append(f"    f{i}: object = {d!r}")
+    else:
+        lines = ["from dataclasses import dataclass, field", "from inline_snapshot import snapshot, Is", "", "", "@dataclass", "class A:"]
+        for i, d in enumerate(c["fields"]):
+            if d is None:
+                lines.append(f"    f{i}: object")
+            elif isinstance(d, list):
+                lines.append(f"    f{i}: object = field(default_factory=lambda: {d!r})")
+            else:
+                lines.append(f"    f{i}: object = {d!r}")
     us = [u for t in c["pos"] for u in ta.unms(t)] + [u for _, t in c["kws"] for u in ta.unms(t)]
     lines += ["", ""] + [f"V{i} = {v}" for i, v in us]
     new = "A(" + ", ".join(f"f{i}={v!r}" for i, v in enumerate(c["new"])) + ")"
@@ -204,10 +219,28 @@ def positional_oracle(c, o):
     return None
 
 
-def check_part(ctx, n, label, positional=True):
+def transparency_oracle(c, o):
+    """C06 on a constructor call, no flags: the comparison inside the test returns what the plain objects give"""
+    if has_unm(c):
+        return None
+    holds = all(_same(a, b) for a, b in zip(old_values(c), c["new"]))
+    got = o["tests"][0] if o["tests"] else "no test ran"
+    if holds and got != "ok":
+        return f"the comparison holds on the plain values ({render_old(c)} == observed object) but the test ended with: {got}"
+    if not holds and not got.startswith("AssertionError"):
+        return f"the comparison fails on the plain values but the test ended with: {got}"
+    if not holds and "assert" not in o["source"]:
+        return None
+    return None
+
+
+def check_part(ctx, n, label, positional=True, noflags=False):
     """generate n cases, run them, apply the oracles, compare the rest with Model/CallAssign.v"""
     from .core import coq_eval_shards, pmap
     cases = [gen_case(ctx.rng) for _ in range(n)]
+    if noflags:
+        for c in cases:
+            c["flags"] = ()
     outs = pmap(run_case, cases, chunksize=8)
     terms, idx = [], []
     npos = nunm = 0
@@ -219,7 +252,7 @@ def check_part(ctx, n, label, positional=True):
             continue
         npos += bool(c["pos"])
         nunm += has_unm(c)
-        why = oracle(c, o)
+        why = oracle(c, o) or (transparency_oracle(c, o) if noflags else None)
         if why:
             ctx.report(f"{label} oracle (constructor call): " + why, {"kind": "call", "case": c, "repr": repr(c)})
             continue
